@@ -29,6 +29,12 @@ type params struct {
 	Shard  int    `json:"shard"`
 	Shards int    `json:"shards"`
 	Pairs  int    `json:"pairs,omitempty"`
+	// Block > 1 (library sender only): the damaged transfer is the Target-th of a block of that many
+	// accepted messages, so that good transfers follow it in the same turn.
+	Block  int `json:"block,omitempty"`
+	Target int `json:"target,omitempty"`
+	// Gzip: both stations run with GZIP_EXPERIMENT=1 (type D proposals, gzip payload).
+	Gzip bool `json:"gzip,omitempty"`
 }
 
 var Check = &vrt.Check{
@@ -68,6 +74,28 @@ func plan(seed int64, tier string) []vrt.Case {
 			}
 			for sh := 0; sh < shards; sh++ {
 				cs = append(cs, vrt.Case{ID: fmt.Sprintf("%s-m%d-pairs-%d", leg, m, sh), Params: vrt.MustParams(params{Seed: seed, Leg: leg, Msg: m, Kind: "pairs", Shard: sh, Shards: shards, Pairs: pairs / len(msgs) / 2}), TimeoutS: 1200})
+			}
+		}
+	}
+	// the damaged transfer inside a block of three accepted messages (first, middle, last position)
+	for _, m := range msgs {
+		for target := 0; target < 3; target++ {
+			for _, kind := range []string{"subst", "pairs"} {
+				for sh := 0; sh < shards/2; sh++ {
+					cs = append(cs, vrt.Case{ID: fmt.Sprintf("lib-block3-t%d-m%d-%s-%d", target, m, kind, sh), TimeoutS: 1200,
+						Params: vrt.MustParams(params{Seed: seed, Leg: "lib", Msg: m, Kind: kind, Shard: sh, Shards: shards / 2, Pairs: pairs / len(msgs) / 4, Block: 3, Target: target})})
+				}
+			}
+		}
+	}
+	// gzip payloads (GZIP_EXPERIMENT on both stations)
+	for _, leg := range []string{"lib", "ref"} {
+		for _, m := range msgs {
+			for _, kind := range []string{"subst", "pairs"} {
+				for sh := 0; sh < shards/2; sh++ {
+					cs = append(cs, vrt.Case{ID: fmt.Sprintf("%s-gzip-m%d-%s-%d", leg, m, kind, sh), TimeoutS: 1200,
+						Params: vrt.MustParams(params{Seed: seed, Leg: leg, Msg: m, Kind: kind, Shard: sh, Shards: shards / 2, Pairs: pairs / len(msgs) / 2, Gzip: true})})
+				}
 			}
 		}
 	}
@@ -119,18 +147,32 @@ type leg interface {
 // ---- leg 1: library sender -> library receiver ---------------------------------------------------
 
 type libLeg struct {
-	sc *b2fx.Scenario
-	t  *target
+	sc   *b2fx.Scenario
+	t    *target
+	gzip bool
 }
 
-func newLibLeg(class int) (*libLeg, error) {
+func newLibLeg(class, block, tgt int, gzip bool) (*libLeg, error) {
 	sc := &b2fx.Scenario{Policy: map[string]fbb.ProposalAnswer{}, Truth: map[string][]byte{}, MasterIsA: false}
-	m := b2fx.MsgSpec{MID: "DAMAGED", From: b2fx.CallA, To: []string{b2fx.CallB}, Subject: "under attack", Body: bodyFor(class), Shape: "c04"}
-	c, err := m.Canonical()
-	if err != nil {
-		return nil, err
+	if block < 1 {
+		block = 1
 	}
-	sc.MsgsA, sc.Truth[m.MID], sc.Policy[m.MID] = []b2fx.MsgSpec{m}, c, fbb.Accept
+	// proposals go out in order of compressed size: bodies of strictly increasing size make the
+	// position of the damaged transfer in its block known
+	for i := 0; i < block; i++ {
+		mid := fmt.Sprintf("GOOD%d", i)
+		if i == tgt {
+			mid = "DAMAGED"
+		}
+		body := append(append([]byte(nil), bodyFor(class)...), bytes.Repeat([]byte("filler that grows; "), 3*i)...)
+		m := b2fx.MsgSpec{MID: mid, From: b2fx.CallA, To: []string{b2fx.CallB}, Subject: "under attack", Body: body, Shape: "c04"}
+		c, err := m.Canonical()
+		if err != nil {
+			return nil, err
+		}
+		sc.MsgsA = append(sc.MsgsA, m)
+		sc.Truth[m.MID], sc.Policy[m.MID] = c, fbb.Accept
+	}
 	// a second message behind it: bytes after the damaged frame belong to later turns
 	m2 := b2fx.MsgSpec{MID: "FOLLOWER", From: b2fx.CallB, To: []string{b2fx.CallA}, Subject: "next turn", Body: []byte("next\r\n"), Shape: "c04"}
 	c2, err := m2.Canonical()
@@ -138,12 +180,14 @@ func newLibLeg(class int) (*libLeg, error) {
 		return nil, err
 	}
 	sc.MsgsB, sc.Truth[m2.MID], sc.Policy[m2.MID] = []b2fx.MsgSpec{m2}, c2, fbb.Accept
-	return &libLeg{sc: sc}, nil
+	return &libLeg{sc: sc, gzip: gzip}, nil
 }
 
 func (l *libLeg) truth() []byte { return l.sc.Truth["DAMAGED"] }
 
 func (l *libLeg) exec(edits []vpipe.Edit, record bool) (b2fx.Result, *vpipe.Link, []mem.Event) {
+	b2fx.SetGzip(l.gzip)
+	defer b2fx.SetGzip(false)
 	lg := &mem.Log{}
 	a, b := l.sc.Stations(lg)
 	sa, sb := l.sc.Sides(a, b)
@@ -190,7 +234,7 @@ func (l *libLeg) run(edits []vpipe.Edit) outcome {
 		switch {
 		case e.Kind == mem.EvProcessInbound && e.MID == "DAMAGED" && e.Station == "B":
 			o.delivered, o.deliveredSum = true, e.Hash
-		case e.Kind == mem.EvProcessInbound && e.Station == "B" && e.MID != "DAMAGED":
+		case e.Kind == mem.EvProcessInbound && e.Station == "B" && l.sc.Truth[e.MID] == nil:
 			// a damaged transfer delivered under another identity is a delivery too
 			o.delivered, o.deliveredSum = true, e.Hash
 		case e.Kind == mem.EvSetSent && e.MID == "DAMAGED" && !e.Flag:
@@ -211,12 +255,16 @@ type refLeg struct {
 	data  []byte
 }
 
-func newRefLeg(class int, seed int64) (*refLeg, error) {
+func newRefLeg(class int, seed int64, gzip bool) (*refLeg, error) {
 	l := &refLeg{class: class}
 	var gerr error
 	l.w = func() *b2fx.PeerWorld {
 		w := b2fx.BaseWorld("c04-ref", class%2 == 0)
 		w.Plan.Seed = seed // PRNG data-block sizes 1..256
+		if gzip {
+			w.Gzip, w.Plan.Gzip = true, true
+			w.Plan.SID = "[WL2K-5.0-B2FWIHJMG$]"
+		}
 		if err := w.AddPeer("DAMAGED", "under attack", bodyFor(class), fbb.Accept); err != nil {
 			gerr = err
 		}
@@ -241,6 +289,9 @@ func (l *refLeg) record() (*target, error) {
 		if tg.Layer == "frame" && tg.Field == "DAMAGED" {
 			stream := run.Res.Written
 			t := &target{dir: vpipe.BtoA, start: tg.Off, end: tg.Off + tg.Len, code: 'C', mid: "DAMAGED", stream: stream}
+			if l.w().Gzip {
+				t.code = 'D'
+			}
 			t.usize = len(l.data)
 			f, err := b2fref.ParseFrame(stream[tg.Off:])
 			if err != nil {
@@ -305,14 +356,39 @@ func locate(stream []byte, mid string) (*target, error) {
 	if _, err := fmt.Sscanf(string(stream[ls:le]), "F%c %s %s %d %d %d", &code, &typ, &m, &usize, &csize, &zero); err != nil {
 		return nil, fmt.Errorf("cannot parse proposal line %q: %v", stream[ls:le], err)
 	}
-	soh := bytes.IndexByte(stream[le:], b2fref.SOH)
-	if soh < 0 {
-		return nil, fmt.Errorf("no frame after the proposal")
+	// position of the proposal inside its block = position of its transfer among the block's frames
+	// (every proposal of the scenario is accepted)
+	pos := 0
+	for q := ls; q > 0; {
+		prevStart := bytes.LastIndexByte(stream[:q-1], '\r') + 1
+		if !bytes.HasPrefix(stream[prevStart:], []byte("FC ")) && !bytes.HasPrefix(stream[prevStart:], []byte("FD ")) {
+			break
+		}
+		pos++
+		q = prevStart
 	}
-	start := le + soh
-	f, err := b2fref.ParseFrame(stream[start:])
-	if err != nil {
-		return nil, err
+	end := bytes.Index(stream[le:], []byte("\rF> "))
+	if end < 0 {
+		return nil, fmt.Errorf("no end of block after the proposal")
+	}
+	soh := bytes.IndexByte(stream[le+end+1:], b2fref.SOH)
+	if soh < 0 {
+		return nil, fmt.Errorf("no frame after the proposal block")
+	}
+	start := le + end + 1 + soh
+	var f *b2fref.Frame
+	for i := 0; ; i++ {
+		var err error
+		if f, err = b2fref.ParseFrame(stream[start:]); err != nil {
+			return nil, fmt.Errorf("frame %d of the block: %v", i, err)
+		}
+		if i == pos {
+			break
+		}
+		start += f.Len
+	}
+	if len(f.Data) != csize {
+		return nil, fmt.Errorf("located frame carries %d bytes, proposal of %s declared %d", len(f.Data), mid, csize)
 	}
 	return &target{start: start, end: start + f.Len, code: code, usize: usize, csize: csize, mid: mid, stream: stream}, nil
 }
@@ -326,9 +402,9 @@ func run(c vrt.Case) vrt.Obs {
 	var l leg
 	var err error
 	if p.Leg == "lib" {
-		l, err = newLibLeg(p.Msg)
+		l, err = newLibLeg(p.Msg, p.Block, p.Target, p.Gzip)
 	} else {
-		l, err = newRefLeg(p.Msg, p.Seed)
+		l, err = newRefLeg(p.Msg, p.Seed, p.Gzip)
 	}
 	if err != nil {
 		o.Inconclusive = append(o.Inconclusive, "setup: "+err.Error())
@@ -352,7 +428,7 @@ func run(c vrt.Case) vrt.Obs {
 			}
 		}
 		if out.reachedFrame {
-			o.Sig("%s m%d %s", p.Leg, p.Msg, name)
+			o.Sig("%s m%d b%d t%d g%v %s", p.Leg, p.Msg, p.Block, p.Target, p.Gzip, name)
 		}
 		// the reference's verdict on the altered bytes, starting where the frame starts
 		var refOK bool
@@ -451,7 +527,7 @@ func run(c vrt.Case) vrt.Obs {
 			try(fmt.Sprintf("pair+%d@%d-%d@%d", d, i, d, j), []vpipe.Edit{{Off: int64(pos[i]), Del: 1, Ins: []byte{bi}}, {Off: int64(pos[j]), Del: 1, Ins: []byte{bj}}})
 		}
 	}
-	o.Sample = map[string]any{"leg": p.Leg, "message_class": p.Msg, "kind": p.Kind, "frame_bytes": n, "csize": t.csize, "usize": t.usize, "shard": fmt.Sprintf("%d/%d", p.Shard, p.Shards)}
+	o.Sample = map[string]any{"leg": p.Leg, "message_class": p.Msg, "kind": p.Kind, "block": p.Block, "target_position": p.Target, "gzip": p.Gzip, "frame_bytes": n, "csize": t.csize, "usize": t.usize, "shard": fmt.Sprintf("%d/%d", p.Shard, p.Shards)}
 	return o
 }
 
